@@ -137,6 +137,25 @@ pub mod c09 {
         };
     }
     scan_refuse!(q_scan_refuse_empty, "");
+    /// strings that END in a separator (or consist of the root character only): the remainder after the
+    /// last separator is an empty slice. Taken as a prefix of a longer literal, so that the empty
+    /// remainder points inside its allocation (a one-past-the-end pointer is what CBMC cannot resolve).
+    macro_rules! scan_refuse_prefix {
+        ($name:ident, $str:expr, $n:expr) => {
+            #[kani::proof]
+            #[kani::unwind(40)]
+            pub fn $name() {
+                kani::cover!(true, "CALLING");
+                let full: &str = $str;
+                let p = Path::new(&full[..$n]);
+                let r: Rec<40> = Rec::of(&p);
+                assert!(r.len > 1000, "C09: a path containing a segment that is not exactly four characters was accepted");
+            }
+        };
+    }
+    scan_refuse_prefix!(q_scan_refuse_trailing_dot, "ABCD.XXXX", 5);
+    scan_refuse_prefix!(q_scan_refuse_trailing_dot_2seg, "\\ABCD.EFGH.XXXX", 11);
+    scan_refuse_prefix!(q_scan_refuse_root_only, "\\XXXX", 1);
     scan_refuse!(q_scan_refuse_len1, "A");
     scan_refuse!(q_scan_refuse_len2, "AB");
     scan_refuse!(q_scan_refuse_len3, "ABC");
